@@ -32,7 +32,7 @@ ASSUMPTIONS = [
     "two functional models per case",
 ]
 BUDGET = {
-    "quick": dict(examples=600, shards=16, seconds=200),
+    "quick": dict(examples=1800, shards=16, seconds=240),
     "thorough": dict(examples=4000, shards=16, seconds=2400),
 }
 ESSENTIAL_LABELS = {t: ["answered", "rule2-evaluated", "rule2-applied", "rejected-impossible-condition", "quotient"] for t in ("quick", "thorough")}
@@ -45,6 +45,15 @@ REGION_F24 = "outcome_and_condition_share_a_base_variable"
 def _case(draw, gs, plus):
     g = draw(gs)
     items = draw(cfutil.event_items(g["nodes"], max_items=4, min_items=2, plus=plus, edges=g["di"]))
+    if draw(st.integers(0, 2)) > 0:
+        # most of the time: one item per variable -- an outcome and a condition on the same variable put the case into
+        # the open finding F24, where nothing can be judged
+        firsts, seen = [], set()
+        for it in items:
+            if it["v"] not in seen:
+                seen.add(it["v"])
+                firsts.append(it)
+        items = firsts
     if len(items) < 2:
         v = sorted(set(g["nodes"]) - {items[0]["v"]})[0] if len(g["nodes"]) > 1 else items[0]["v"]
         extra = {"v": v, "do": [], "val": False}
